@@ -1175,6 +1175,14 @@ func (ex *Exec) builtin(st *State, c *ssa.Call, bi *ssa.Builtin) {
 			r := st.sc.fresh("maplen", SInt)
 			st.sc.assert(eq(r, st.readFam(st.heap, l, x)))
 			st.sc.assert(le(intLit(0), r))
+			{
+				// a map of length 0 has no key (Go maps are finite: len is the number of keys)
+				d, _, _ := st.mapFamsT(mt)
+				st.sc.nfresh++
+				kv := Term{fmt.Sprintf("k!m%d", st.sc.nfresh), st.u().sortOf(mt.Key())}
+				st.sc.ensureSort(kv.Sort)
+				st.sc.emit("(assert (=> (= %s 0) (forall ((%s %s)) (not %s))))", r.S, kv.S, kv.Sort, st.readFam(st.heap, d, x, kv).S)
+			}
 			st.vals[c] = r
 		default:
 			ex.abort("len of %s", args[0].Type())
